@@ -69,7 +69,10 @@ func (*fastCompound).eval
   loop 1 invariant fc.op != "AND" ==> (result <==> exists(i, 0, $i, partDecision(fc.parts[i], data)))
 
 func tryFastCompound
-  props C12
+  props C12 C05 C06
+  ensures mixed-and-or-is-left-to-the-general-evaluator: strings.Contains(expression, "&&") && strings.Contains(expression, "||") ==> result == nil
+  ensures grouping-is-left-to-the-general-evaluator: strings.ContainsAny(expression, "()") ==> result == nil
+  ensures the-chain-operator-is-the-one-written: result != nil ==> (result.op == "AND" <==> strings.Contains(expression, "&&")) && (result.op == "OR" <==> strings.Contains(expression, "||"))
   ensures parts-exactly-representable: result != nil ==> forall(i, 0, len(result.parts), fcOK(result.parts[i]))
   ensures flat-chain: result != nil ==> (result.op == "AND" || result.op == "OR")
   loop 1 invariant forall(i, 0, len(compares), fcOK(compares[i]))
